@@ -118,9 +118,17 @@ def run_deductive(prop, tier, ev, known):
             downgraded.append({'contract': c.name, 'reason': rep.error})
             funcs.append(entry)
             continue
+        if rep.unsupported_paths:
+            msg = f'{len(rep.unsupported_paths)} path(s) outside the verified subset: {rep.unsupported_paths[0]}'
+            print(f'PROOF-NOT-REESTABLISHED {c.name}: {msg}')
+            entry['status'] = 'partial: ' + msg
+            downgraded.append({'contract': c.name, 'reason': msg})
         if rep.vacuous:
             print(f'CHECK-ERROR {c.name}: precondition unsatisfiable (vacuous contract)')
             ev['errors'].append(f'{c.name}: vacuous precondition')
+            continue
+        if not obs and rep.unsupported_paths:
+            funcs.append(entry)
             continue
         if not obs:
             print(f'CHECK-ERROR {c.name}: zero obligations generated')
